@@ -44,6 +44,68 @@ def arg_obj(a, shared=None):
     return a
 
 
+# ------------------------------------------------------- the state of the built objects ---
+# Properties quantify over objects, not over *freshly built* objects.  A case may ask (key "_objmode", set by the
+# worker for a share of the cases and recorded in replays) that every object the builders hand out is
+#   looked-at : already repr()-ed, compared, hashed, serialised, measured before the check uses it
+#   copy / deepcopy / pickle : a copy of the built object (the original is kept alive next to it)
+#   shared    : within one schema, equal conditions / paths are ONE object used by several rules
+OBJ_MODES = ("looked-at", "copy", "deepcopy", "pickle", "shared")
+_STATE = {"mode": None, "depth": 0, "keep": [], "applied": 0}
+
+
+def begin_case(mode):
+    _STATE.update(mode=mode, depth=0, keep=[], applied=0)
+
+
+def _look(obj):
+    for f in (repr, str, lambda o: o == o, lambda o: o != o, hash, len, lambda o: o.to_json_like(), lambda o: o.to_spec(),
+              lambda o: o.to_part_specs(), lambda o: list(o), lambda o: o.to_tree(), lambda o: bool(o),
+              lambda o: (o.is_concrete, o.simplify()), lambda o: o.flatten(), lambda o: (o.is_null, o.is_value_like)):
+        try:
+            f(obj)
+        except Exception:
+            pass
+
+
+def _finish(obj):
+    """applied to what the OUTERMOST builder call returns"""
+    mode = _STATE["mode"]
+    if mode is None or mode == "shared":
+        return obj
+    _STATE["applied"] += 1
+    if mode == "looked-at":
+        _look(obj)
+        return obj
+    import copy
+    import pickle
+    _STATE["keep"].append(obj)
+    try:
+        if mode == "copy":
+            return copy.copy(obj)
+        if mode == "deepcopy":
+            return copy.deepcopy(obj)
+        return pickle.loads(pickle.dumps(obj))
+    except Exception:
+        _STATE["applied"] -= 1
+        return obj
+
+
+def _outer(fn):
+    import functools
+
+    @functools.wraps(fn)
+    def wrapper(*a, **kw):
+        _STATE["depth"] += 1
+        try:
+            out = fn(*a, **kw)
+        finally:
+            _STATE["depth"] -= 1
+        return _finish(out) if _STATE["depth"] == 0 else out
+    return wrapper
+
+
+@_outer
 def cond_obj(term, shared=None):
     _, C, _ = V()
     c = term["c"]
@@ -74,6 +136,7 @@ def _comp_obj(c):
     return cond_obj(c)
 
 
+@_outer
 def part_obj(part):
     _, _, DP = V()
     p = part["p"]
@@ -98,6 +161,7 @@ def apply_mods(obj, pterm):
     return obj
 
 
+@_outer
 def path_obj(pterm, **kw):
     _, _, DP = V()
     obj = DP.DataPath(*[part_obj(p) for p in pterm["parts"]], **kw)
@@ -118,10 +182,15 @@ def cast_obj(casts):
     return out
 
 
-def rule_obj(rule, path_as_tuple=False):
+@_outer
+def rule_obj(rule, path_as_tuple=False, _memo=None):
     import valida
     if path_as_tuple and M.is_concrete(rule["path"]) or False:
         path = tuple(part_obj(p) for p in rule["path"]["parts"])
+    elif _memo is not None:
+        # (shared mode: equal paths / conditions / cast and doc mappings of one schema are one object)
+        k = ("path", repr(rule["path"]))
+        path = _memo[k] if k in _memo else _memo.setdefault(k, path_obj(rule["path"]))
     else:
         path = path_obj(rule["path"])
     kw = {}
@@ -129,12 +198,25 @@ def rule_obj(rule, path_as_tuple=False):
         kw["cast"] = cast_obj(rule["cast"])
     if rule.get("doc") is not None:
         kw["doc"] = rule["doc"]
-    return valida.Rule(path=path, condition=cond_obj(rule["cond"]), **kw)
+    if _memo is not None:
+        k = ("cond", repr(rule["cond"]))
+        cond = _memo[k] if k in _memo else _memo.setdefault(k, cond_obj(rule["cond"]))
+        for name in ("cast", "doc"):
+            if name in kw:
+                k = (name, repr(rule.get(name)))
+                kw[name] = _memo[k] if k in _memo else _memo.setdefault(k, kw[name])
+    else:
+        cond = cond_obj(rule["cond"])
+    return valida.Rule(path=path, condition=cond, **kw)
 
 
+@_outer
 def schema_obj(rules):
     import valida
-    return valida.Schema([rule_obj(r) for r in rules])
+    memo = {} if _STATE["mode"] == "shared" else None
+    if memo is not None:
+        _STATE["applied"] += 1
+    return valida.Schema([rule_obj(r, _memo=memo) for r in rules])
 
 
 # ---------------------------------------------------------------------------- specs ---
